@@ -9,6 +9,7 @@ import (
 	"errors"
 	"fmt"
 	"os"
+	"path/filepath"
 	"runtime"
 	"sort"
 	"strconv"
@@ -17,6 +18,7 @@ import (
 	"testing"
 	"time"
 
+	"github.com/redis/rueidis"
 	"github.com/redis/rueidis/rueidislock"
 	"pgregory.net/rapid"
 	"verif/harness/sim"
@@ -29,6 +31,22 @@ import (
 type c34Locker struct {
 	NoLoop bool `json:"noloop"`
 	SetPX  bool `json:"setpx"`
+	// CloseLingerMs > 0: the locker gets its client through LockerOption.ClientBuilder, wrapped so that Client.Close
+	// takes effect that much later (an application that shuts its connection down gracefully, or shares it). Without
+	// it nothing a Locker does in Close can be seen on the server: rueidislock closes the client right after it has
+	// told its key monitors, and their release scripts are refused by the closed client (the keys simply expire).
+	CloseLingerMs int `json:"close_linger_ms,omitempty"`
+}
+
+// c34LingerClient delays Close; everything else is the client rueidislock asked for.
+type c34LingerClient struct {
+	rueidis.Client
+	linger time.Duration
+	once   sync.Once
+}
+
+func (c *c34LingerClient) Close() {
+	c.once.Do(func() { time.AfterFunc(c.linger, c.Client.Close) })
 }
 
 type c34Op struct {
@@ -329,7 +347,19 @@ func c34Exec(t *testing.T, plan c34Plan) (run c34Run) {
 			opt.ClientName = fmt.Sprintf("locker%d", i)
 			opt.WriteBufferEachConn = 1 << 20
 			opt.DialCtxFn = nets[i].dialer(opt.DialCtxFn)
+			var builder func(rueidis.ClientOption) (rueidis.Client, error)
+			if pl.CloseLingerMs > 0 {
+				linger := time.Duration(pl.CloseLingerMs) * time.Millisecond
+				builder = func(o rueidis.ClientOption) (rueidis.Client, error) {
+					c, err := rueidis.NewClient(o)
+					if err != nil {
+						return nil, err
+					}
+					return &c34LingerClient{Client: c, linger: linger}, nil
+				}
+			}
 			l, err := rueidislock.NewLocker(rueidislock.LockerOption{
+				ClientBuilder:  builder,
 				ClientOption:   opt,
 				KeyPrefix:      plan.Prefix,
 				KeyValidity:    time.Duration(plan.ValidityMs) * time.Millisecond,
@@ -1456,6 +1486,44 @@ func genC34Plan(rt *rapid.T) c34Plan {
 	return p
 }
 
+// c34ReplayPlans checks every plan stored in $VERIF_ROOT/replays/C34/*.json (a plan, or a violation.json with the plan
+// under "case"); see replayPlans.
+func c34ReplayPlans(t *testing.T, c *stat.Collector) {
+	root := os.Getenv("VERIF_ROOT")
+	if root == "" {
+		root = "/verif"
+	}
+	files, _ := filepath.Glob(filepath.Join(root, "replays", "C34", "*.json"))
+	sort.Strings(files)
+	for _, f := range files {
+		b, err := os.ReadFile(f)
+		if err != nil {
+			t.Fatalf("replay %s: %v", f, err)
+		}
+		var wrapped struct {
+			Case json.RawMessage `json:"case"`
+		}
+		if json.Unmarshal(b, &wrapped) == nil && len(wrapped.Case) > 0 {
+			b = wrapped.Case
+		}
+		var plan c34Plan
+		if err := json.Unmarshal(b, &plan); err != nil {
+			t.Fatalf("replay %s: %v", f, err)
+		}
+		saveCase("c34", plan)
+		run := c34Exec(t, plan)
+		if run.Res.Frozen {
+			c.Inconclusive("virtual-clock-freeze")
+			continue
+		}
+		if run.Unsupp {
+			c.Inconclusive("lua-unsupported")
+			continue
+		}
+		c34Check(c, t, plan, run)
+	}
+}
+
 func TestVerif_C34_Lock(t *testing.T) {
 	// see TestVerif_C39_Aside: Go 1.25.0 corrupts the specials list when WaitGroup.Add runs in parallel in a bubble
 	defer runtime.GOMAXPROCS(runtime.GOMAXPROCS(1))
@@ -1492,6 +1560,8 @@ func TestVerif_C34_Lock(t *testing.T) {
 		}
 		return
 	}
+	// regression tier: the shrunk plans of the defects this check found (repaired since) run first, without the generator
+	c34ReplayPlans(t, c)
 	rapid.Check(t, func(rt *rapid.T) {
 		plan := genC34Plan(rt)
 		saveCase("c34", plan)
